@@ -13,6 +13,7 @@ import pandas
 import scipy.sparse as spsparse
 from interface_meta import override
 
+from formulaic.materializers.types import FactorValues
 from formulaic.utils.cast import as_columns
 from formulaic.utils.null_handling import drop_rows as drop_nulls
 
@@ -20,6 +21,14 @@ from .base import FormulaMaterializer
 
 if TYPE_CHECKING:  # pragma: no cover
     from formulaic.model_spec import ModelSpec
+
+
+def _as_array(values: Any) -> numpy.ndarray:
+    # numpy does not see through the `FactorValues` wrapper of a plain list
+    # (e.g. a list of numbers taken from the evaluation context).
+    if isinstance(values, FactorValues):
+        values = values.__wrapped__
+    return numpy.asanyarray(values)
 
 
 class NarwhalsMaterializer(FormulaMaterializer):
@@ -79,9 +88,8 @@ class NarwhalsMaterializer(FormulaMaterializer):
         if drop_rows:
             values = drop_nulls(values, indices=drop_rows)
         if spec.output == "sparse":
-            return spsparse.csc_matrix(
-                numpy.array(values).reshape((values.shape[0], 1))
-            )
+            array = _as_array(values)
+            return spsparse.csc_matrix(array.reshape((array.shape[0], 1)))
         return values
 
     @override
@@ -165,7 +173,7 @@ class NarwhalsMaterializer(FormulaMaterializer):
                     {
                         ":".join(solo_factors): functools.reduce(
                             numpy.multiply,
-                            (numpy.asanyarray(p) for p in solo_factors.values()),
+                            (_as_array(p) for p in solo_factors.values()),
                         )
                     }
                 )
@@ -181,7 +189,7 @@ class NarwhalsMaterializer(FormulaMaterializer):
             else:
                 out[names[i]] = scale * functools.reduce(
                     numpy.multiply,
-                    (numpy.array(p[1]) for p in reversed(reversed_product)),
+                    (_as_array(p[1]) for p in reversed(reversed_product)),
                 )
         return out
 
